@@ -57,8 +57,8 @@ def replay_reconfig_encode(msgs, cfgs, enc, hexbm):
 
 def replay_unencodable(msg, enc):
     from cardutil import iso8583
-    from cardutil.config import config
-    cfgs = config['bit_config']
+    from . import packaged
+    cfgs = packaged.bit_config()
     try:
         got = iso8583.dumps(dict(msg), encoding=enc)
     except Exception as e:
